@@ -154,7 +154,7 @@ func (s Scale) Project(x float64) (Cell, bool) {
 	if s.Bits {
 		return BitsCell(x), true
 	}
-	if math.IsNaN(x) || math.IsInf(x, 0) || math.Abs(x*float64(s.D)) > 2e9 {
+	if math.IsNaN(x) || math.IsInf(x, 0) || x*float64(s.D) > math.MaxInt32 || x*float64(s.D) < math.MinInt32 {
 		return IntCell(0), false
 	}
 	r := math.Round(x * float64(s.D))
